@@ -58,6 +58,7 @@ type Job struct {
 	JSONLens        []int
 	Stubs           map[string]interceptFn
 	OneShot         bool // non-incremental solving (floating point)
+	ReplayTest      string   // native test (in the harness dir's *_test.go files) that replays a model of this job
 	CutCalls        []string // calls to functions whose name ends with one of these end the path as outside the unit
 	HangIsViolation bool // exceeding the step budget is reported as a hang candidate (replayed natively with a watchdog)
 	UnwindIsBound   bool // reaching the unwinding bound is a stated bound (outside the claim), not an unwinding failure
@@ -479,6 +480,23 @@ func harnessOverlay(pkgDirs []string) map[string][]byte {
 }
 
 var harnessFuncRe = regexp.MustCompile(`(?m)^func (H_\w+)\(\)`)
+
+// harnessTestOverlay maps the replay drivers (*_test.go of the harness dirs).
+func harnessTestOverlay(pkgDirs []string) map[string][]byte {
+	ov := map[string][]byte{}
+	for _, pd := range pkgDirs {
+		hd := filepath.Join(verifDir(), "harness", pd)
+		ents, _ := os.ReadDir(hd)
+		for _, e := range ents {
+			if strings.HasSuffix(e.Name(), "_test.go") {
+				if b, err := os.ReadFile(filepath.Join(hd, e.Name())); err == nil {
+					ov[filepath.Join(repoDir(), pd, e.Name())] = b
+				}
+			}
+		}
+	}
+	return ov
+}
 
 func fileSum(p string) string {
 	b, err := os.ReadFile(p)
